@@ -260,6 +260,7 @@ def execute(history):
     resets = {}
     viols = []
     cnt = {}
+    obs = []
 
     def bump(k, v=1):
         cnt[k] = cnt.get(k, 0) + v
@@ -300,6 +301,7 @@ def execute(history):
             if kind != "align" and obj.kbest_distances is not None and obj.k is not None and k is not None and k <= obj.k:
                 bump("probe:cache_hit_path")
             status, pairs, view = _call(obj, op)
+            obs.append([opi, status, [[core.fbits(a), b] for a, b in pairs] if status == "ok" else pairs])
             # fresh twin: same construction from pristine copies, asked only this question
             q2, cs2 = _mk(setup)
             fd = copy.deepcopy(pristine_dicts[spec["dict"]]) if spec["dict"] is not None else None
@@ -412,7 +414,7 @@ def execute(history):
     if mutated:
         bump("info:caller_options_dict_left_modified", mutated)
     return {"violations": viols[:4], "counters": cnt, "nontrivial": sessions.sessions_interleaved(history),
-            "digest": core.hash_obj([[v["class"], v["op"]] for v in viols])}
+            "digest": core.hash_obj([obs, [[v["class"], v["op"]] for v in viols]])}
 
 
 # ---------------------------------------------------------------------------------------------- classification / shrinking
